@@ -17,6 +17,18 @@ pub enum ParseError {
     Incomplete,
 }
 
+impl ParseError {
+    /// Tries another parser after this error, unless it is [ParseError::Incomplete]:
+    /// a parser that ran out of input may still match once more input has arrived,
+    /// so its verdict must not be replaced by that of a later alternative.
+    fn or_try<T>(self, parser: impl FnOnce() -> Result<T, ParseError>) -> Result<T, ParseError> {
+        match self {
+            ParseError::Incomplete => Err(ParseError::Incomplete),
+            _ => parser(),
+        }
+    }
+}
+
 impl From<()> for ParseError {
     fn from(_: ()) -> Self {
         ParseError::SoftError(None)
@@ -347,13 +359,13 @@ fn argument_separator(input: &[u8]) -> ParseResult<()> {
 /// Parses an argument value.
 fn argument(input: &[u8]) -> ParseResult<Value<'_>> {
     characters(input)
-        .or_else(|_| decimal_numeric_program_data(input))
-        .or_else(|_| hexadecimal_numeric_program_data(input))
-        .or_else(|_| binary_numeric_program_data(input))
-        .or_else(|_| octal_numeric_program_data(input))
-        .or_else(|_| single_quoted_string_program_data(input))
-        .or_else(|_| double_quoted_string_program_data(input))
-        .or_else(|_| arbitrary_program_data(input))
+        .or_else(|e| e.or_try(|| decimal_numeric_program_data(input)))
+        .or_else(|e| e.or_try(|| hexadecimal_numeric_program_data(input)))
+        .or_else(|e| e.or_try(|| binary_numeric_program_data(input)))
+        .or_else(|e| e.or_try(|| octal_numeric_program_data(input)))
+        .or_else(|e| e.or_try(|| single_quoted_string_program_data(input)))
+        .or_else(|e| e.or_try(|| double_quoted_string_program_data(input)))
+        .or_else(|e| e.or_try(|| arbitrary_program_data(input)))
 }
 
 /// Parses multiple arguments separated by commas.
